@@ -8,8 +8,6 @@ import (
 
 	"github.com/btcsuite/btcd/blockchain"
 	"github.com/btcsuite/btcd/chaincfg/v2"
-	"github.com/btcsuite/btcd/chainhash/v2"
-	"github.com/btcsuite/btcd/peer"
 	"github.com/btcsuite/btcd/wire/v2"
 	"github.com/lightninglabs/neutrino"
 	"github.com/lightninglabs/neutrino/banman"
@@ -67,6 +65,48 @@ type BMStats struct {
 	Constructed, HeadersHandled, TipsMoved int64
 	// ServiceRestarts counts restarts made through NewChainService.
 	ServiceRestarts int64
+	// counters / marks of the started-restart (filter-header resume) step.
+	counters map[string]int64
+	marks    map[string]int64
+}
+
+func (s *BMStats) count(name string, n int64) {
+	if s == nil {
+		return
+	}
+	s.mu.Lock()
+	if s.counters == nil {
+		s.counters = map[string]int64{}
+	}
+	s.counters[name] += n
+	s.mu.Unlock()
+}
+
+func (s *BMStats) mark(name string) {
+	if s == nil {
+		return
+	}
+	s.mu.Lock()
+	if s.marks == nil {
+		s.marks = map[string]int64{}
+	}
+	s.marks[name]++
+	s.mu.Unlock()
+}
+
+// Counters returns a copy of the named counters and of the shape marks (with
+// how often each shape was seen) of the started-restart step.
+func (s *BMStats) Counters() (counters, marks map[string]int64) {
+	s.mu.Lock()
+	defer s.mu.Unlock()
+	counters, marks = map[string]int64{}, map[string]int64{}
+	for k, v := range s.counters {
+		counters[k] = v
+	}
+	for k, v := range s.marks {
+		marks[k] = v
+	}
+	return counters, marks
 }
 
 func (s *BMStats) addService() {
@@ -188,27 +228,10 @@ func RestartBM(p *chaincfg.Params, b headerfs.BlockHeaderStore, f headerfs.Filte
 	// A real (never connected) btcd peer inside a real ServerPeer: the
 	// handler updates its last block height and may push a getheaders, which
 	// an unconnected peer drops.
-	bmPeerSeq.mu.Lock()
-	bmPeerSeq.n++
-	addr := fmt.Sprintf("10.8.%d.%d:18444", (bmPeerSeq.n/250)%250, 1+bmPeerSeq.n%250)
-	bmPeerSeq.mu.Unlock()
-	pp, err := peer.NewOutboundPeer(&peer.Config{
-		NewestBlock: func() (*chainhash.Hash, int32, error) {
-			h, ht, err := b.ChainTip()
-			if err != nil {
-				return nil, 0, err
-			}
-			hash := h.BlockHash()
-			return &hash, int32(ht), nil
-		},
-		UserAgentName: "verif-c08", UserAgentVersion: "0.0.1", ChainParams: p,
-		Services: wire.SFNodeWitness | wire.SFNodeCF, ProtocolVersion: wire.AddrV2Version,
-		DisableRelayTx: true, AllowSelfConns: true,
-	}, addr)
+	sp, err := standInPeer(p, b)
 	if err != nil {
 		return nil, bmInconclusive, "harness: cannot make a peer: " + err.Error()
 	}
-	sp := neutrino.VerifNewServerPeer(pp, *p, b)
 	msg := wire.NewMsgHeaders()
 	hc := *next
 	msg.Headers = []*wire.BlockHeader{&hc}
